@@ -1,7 +1,7 @@
 (** C12 - leaking a drain, iterator or view leaves a valid array. *)
 From Coq Require Import Permutation.
 From TD Require Import Base.Prelude Spec.Grid Spec.Inv Model.Iter Model.Owned Model.Hist
-  Proofs.RemoveRow Proofs.RemoveCol Proofs.HistInv.
+  Proofs.RemoveRow Proofs.RemoveCol Proofs.RemoveColLeak Proofs.HistInv.
 
 (** mem::forget of the drain returned by remove_row / pop_row after ANY consumption
     (any interleaving of next / next_back / len): the array is the original without that
@@ -32,16 +32,18 @@ Print Assumptions C12_remove_col_any_end.
 
 (** mem::forget of the DrainCol after ANY consumption: the call returns (never UB), the
     caller saw the ideal run over the column, and the array is left empty with dimensions
-    (0,0) - a valid shape; the elements still in the buffer are leaked, none is dropped *)
+    (0,0) - a valid shape; the elements still in the buffer are leaked, and together with
+    the yielded ones they are exactly the array's elements: none dropped, none twice *)
 Theorem C12_remove_col_leaked :
   forall (A : Type) (t : toodee A) idx steps,
   Inv t -> idx < num_cols t -> (N.of_nat (length (data t)) < W)%N ->
   let colv := vals (data t) (col_cells (num_cols t) (num_rows t) idx) in
+  let obs := fst (fst (run_vec_drain steps colv)) in
+  let yielded := snd (fst (run_vec_drain steps colv)) in
   exists leaked,
-    remove_col t (N.of_nat idx) steps ForgetIt
-    = Ok (mkDrain (mkTD [] 0 0) true (fst (fst (run_vec_drain steps colv))) (snd (fst (run_vec_drain steps colv)))
-            [] leaked).
-Proof. exact @remove_col_leaked. Qed.
+    remove_col t (N.of_nat idx) steps ForgetIt = Ok (mkDrain (mkTD [] 0 0) true obs yielded [] leaked) /\
+    Permutation (yielded ++ leaked) (data t).
+Proof. exact @remove_col_leaked_all. Qed.
 Print Assumptions C12_remove_col_leaked.
 
 (** histories in which drains are leaked at any step keep a valid array throughout *)
